@@ -168,9 +168,10 @@ func (s *SBI) validateSetDefaults() error {
 
 func (s *Sync) validateSetDefaults() error {
 	// no sync
-	if s == nil || len(s.Config) == 0 {
+	if s == nil {
 		return nil
 	}
+	// the buffer sizes the sync channel and the write workers its semaphore, also if no sync protocol is configured
 	if s.Buffer <= 0 {
 		s.Buffer = defaultBufferSize
 	}
